@@ -107,7 +107,15 @@ pub fn shrink(h: &History, sig: &str, checks: &Checks, budget: usize, secs: u64)
 }
 
 fn gen_history(rng: &mut Prng, prop: &str, thorough: bool) -> History {
-    let cfg = Cfg::gen(rng);
+    let mut cfg = Cfg::gen(rng);
+    // one history in five ends with a close in the middle of a table compaction; half of those use
+    // one-entry blocks and output files, so that the loop is between two output files at every
+    // iteration (the moment an interrupted compaction has nothing half-written)
+    let busy_close = rng.chance(1, 5);
+    if busy_close && rng.chance(1, 2) {
+        cfg.file = 1;
+        cfg.block = 16;
+    }
     let nops = if thorough { rng.range(40, 600) } else { rng.range(20, 150) } as usize;
     let space = *rng.pick(&[6u64, 12, 24, 48, 96, 300]);
     let big_ok = rng.chance(1, 4);
@@ -233,6 +241,20 @@ fn gen_history(rng: &mut Prng, prop: &str, thorough: bool) -> History {
     for id in live_iters.drain(..) {
         ops.push(Op::IterClose(id));
     }
+    if busy_close {
+        for id in live.drain(..) {
+            ops.push(Op::Release(id));
+        }
+        let mut c = Cfg { reuse: rng.chance(1, 2), ..cfg.clone() };
+        if rng.chance(1, 3) {
+            c = Cfg::gen(rng);
+        }
+        ops.push(Op::CloseBusy(rng.range(1, 40) as u32, c));
+        ops.push(Op::Scan);
+        for _ in 0..rng.range(1, 6) {
+            ops.push(Op::Get(gen_key(rng, space)));
+        }
+    }
     ops.push(Op::Idle);
     History { cfg, ops }
 }
@@ -255,6 +277,8 @@ fn add_stats(rep: &mut Report, s: &Stats) {
     rep.add("lsm.states-validated-against-model", s.states_validated);
     rep.add("lsm.directory-checks-against-retention-model", s.retention_checks);
     rep.add("lsm.entries-dropped-by-compactions", s.entries_dropped);
+    rep.add("lsm.potential-lowered-by-compactions", s.potential_drop);
+    rep.add("lsm.closes-during-a-table-compaction", s.closes_during_table_compaction);
     let bump = |rep: &mut Report, k: &str, v: u64| {
         let cur = rep.dist.get(k).copied().unwrap_or(0);
         if v > cur {
@@ -293,6 +317,7 @@ pub fn rule() -> &'static str {
 /// child (or in-process) execution of the shard's share of the job list
 pub fn run(tier: &str, seed: u64, prop: &str, replay: Option<&str>, corpus_dir: &str, shard: Option<ShardArgs>, drv_path: &str) -> Report {
     install_panic_hook();
+    crate::sched::init();
     let mut rep = Report::new("lsm", rule());
     let checks = Checks { drv_path: if drv_path == "none" { None } else { Some(drv_path.to_string()) }, retention_model: prop == "C11", ..Checks::default() };
     let secs = 60;
